@@ -23,7 +23,7 @@ import acc_common as AC
 import accir
 
 PROPERTY = "C01"
-MODEL_TARGETS = ["Model/AccDedup.vo", "Model/AccWeave.vo"]
+MODEL_TARGETS = ["Model/AccDedup.vo", "Model/AccWeave.vo", "Model/AccRules.vo"]
 RULE = ("functions in lowering form as for C07 (1-2 accelerators x 1-3 fields, setup+launch+await triples, scf.for / "
         "scf.if nested to depth 3, calls with/without accfg.effects<none>, loop-derived arithmetic), plus if/else "
         "followed by a setup (hoisting), loops alternating between configurations, and the functions of "
@@ -175,22 +175,23 @@ def correspondence(ctx):
         texts.append(AC.HEADER_D + "Definition cases : list (rule * tbl * list val * val * prog * prog) := "
                      + accir._l(AC.step_case(s) for s, _ in sh) + ".\n"
                      "Eval vm_compute in failing (fun c => match c with (r, t, fr, tg, b, a) => step_ok r t fr tg b a end) cases.\n"
-                     "Eval vm_compute in failing (fun c => match c with (r, t, fr, tg, b, a) => match r with RSimplify => simplify_cert t fr tg b a && wf_prog (tfun t) b | _ => true end end) cases.\n"
-                     "Eval vm_compute in failing (fun c => match c with (r, t, fr, tg, b, a) => match r with RElide => elide_cert tg b a | _ => true end end) cases.\n")
+                     "Eval vm_compute in failing (fun c => match c with (r, t, fr, tg, b, a) => match r with\n"
+                     "  | RSimplify => simplify_g_cert t fr tg b a | RMerge => merge_cert fr tg b a\n"
+                     "  | RHoist => hoist_cert fr tg b a | RElide => elide_g_cert tg b a | RPull => true end end) cases.\n"
+                     "Eval vm_compute in failing (fun c => match c with (r, t, fr, tg, b, a) => match r with RPull => full_field_form b | _ => true end end) cases.\n")
     res = vlib.coq_eval_many("c01l1_", texts, timeout=900)
     for sh, (ok, out) in zip(shards, res):
         lists = vlib.parse_all_eval_lists(out)
         if not ok or len(lists) != 3:
             dis.append({"name": "L1:cases-file", "detail": out[-1500:]})
             continue
-        # elide rewrites whose input state is loop-carried / an scf result are outside C01_elide_rule_partial
-        ctx.extra["elide_rewrites_outside_theorem"] = ctx.extra.get("elide_rewrites_outside_theorem", 0) + len(lists[2])
+        ctx.extra["pull_rewrites_on_non_full_field_programs"] = ctx.extra.get("pull_rewrites_on_non_full_field_programs", 0) + len(lists[2])
         for idx in lists[0]:
             s, text = sh[idx]
             dis.append({"name": f"L1:{s[0]}", "target": s[1], "text": text, "coq_case": AC.step_case(s)[:1500]})
         for idx in lists[1]:
             s, text = sh[idx]
-            dis.append({"name": "L1:simplify-rewrite-fails-simplify_cert(hypotheses of C01_simplify_rule_partial)", "target": s[1], "text": text})
+            dis.append({"name": "L1:rewrite-outside-its-theorem(guarded rule != real result, or a decidable hypothesis of C01_<rule>_rule fails)", "target": s[1], "text": text})
     # programs on which model and code disagree are searched first by L2
     _SUSPECTS[:] = [d["text"] for d in dis if d.get("text") in _INS][:24]
     return dis
